@@ -61,7 +61,10 @@ def dollar_quote_literal(text: str) -> str:
     quote = '$$'
     qq = 0
 
-    while quote in text:
+    # The lexer closes the literal at the first occurrence of the quote in
+    # the text *followed by the closing quote*, so an occurrence that
+    # straddles the end of the text (e.g. a trailing `$`) counts too.
+    while quote in text + quote[:-1]:
         if qq % 16 < 10:
             qq += 10 - qq % 16
 
